@@ -166,6 +166,7 @@ func init() {
 		Explanation: "Decides one clause only, 'terminates with a result for any sequence of items' in its no-panic part: every index of the caller-supplied item slice in Linebreak and the linebreaker methods is dominated by a bound check or is an index parameter whose bound is established at every call site (interprocedural index contract), and no explicit panic is reachable from Linebreak. NOT decided: legality of breakpoints, feasibility, optimality, relaxation of the tolerance, termination.",
 		Assumptions: []string{"lb.items[active.Position] (a position stored earlier from a checked index) is listed as unclassified, not decided"},
 		Run: func(c *core.Ctx, r *core.Report) {
+			E4ListLinks(c, r)
 			E4RunningTotalsFixed(c, r)
 			E4NextToleranceRecorded(c, r)
 			E4ClassRecordsTogether(c, r)
@@ -188,6 +189,7 @@ func init() {
 		Explanation: "Decides, for every sequence of writer calls, the structural clauses of the PDF writer: bytes reach the io.Writer only through write/writeBytes which add the returned count to pos; every 'n 0 obj' emission is immediately preceded by recording pos at index n-1; the reserved catalog/info/page-tree numbers agree with trailer Root/Info, catalog Pages and every page's Parent, and xref count == trailer Size; a stream's Length is len() of exactly the slice written between stream/endstream; the six metadata fields are stored under the key of the same name from the field of the same name; every font map in which getFont reserves a reference is written in Close with the matching vertical flag; no module type implementing an interface map key is non-comparable (or it is unwrapped before every use); the content-stream fragments form only PDF operators with balanced q/Q, BT/ET and terminated strings (abstract interpretation with inlining); every resource name given to gs/scn/SCN/Tf/Do is registered in the page's resources under the category the operator uses. NOT decided: byte-exact offsets of concrete documents, filter decodability, font program validity, the page count arithmetic.",
 		Assumptions: []string{"fmt.Fprintf writes exactly the formatted bytes and returns their count", "path data produced by Path.ToPDF is treated as an opaque, well-delimited operand sequence (its own operator arities are checked under C11/C12)"},
 		Run: func(c *core.Ctx, r *core.Report) {
+			E5NameMemoScope(c, r)
 			E5StitchingArity(c, r)
 			E5NameEscape(c, r)
 			E5FunctionDictNeverEmpty(c, r)
@@ -220,6 +222,9 @@ func init() {
 		Explanation: "Decides structural agreement among the four back-ends for every drawing: each RenderPath reads every Style field (a back-end that never reads a field cannot honour it); every explicit Dash call receives canvas.ScaleDash(style.StrokeWidth, …) like the reference rasterizer; every path serialised by ToSVG/ToPDF/ToPS/ToScanxScanner derives on every path from Transform(M) with M built from the view parameter (SVG: with the y-flip), incl. the explicit-outline fall-backs; cap/join codes per concrete Capper/Joiner type agree with the formats' tables and the even-odd marker is emitted only under FillRule == EvenOdd; the emitted PDF and PostScript fragments form only operators of the respective vocabulary with balanced save/restore (abstract interpretation with path-sensitive repeated conditions), and procedure names emitted by Path.ToPS are defined in the PS prolog. NOT decided: that an interpreter of the output paints the same pixels, gradients/patterns, text, opacity, unit factors, Positive/Negative fill rules (no back-end format has them).",
 		Assumptions: []string{"the rasterizer is the reference for dash scaling", "PS.RenderImage (binary image data) is outside the grammar rule"},
 		Run: func(c *core.Ctx, r *core.Report) {
+			E5NameMemoScope(c, r)
+			E5PageMemoFresh(c, r)
+			E5Resources(c, r)
 			E6MemoStoresCompared(c, r)
 			E5ClosedPaintOperator(c, r)
 			E5PaintFollowsItsSetter(c, r)
@@ -253,6 +258,7 @@ func init() {
 		Explanation: "Decides, for every path and argument: (1) every exported method of *Path/Paths other than the documented in-place mutators/sinks (each re-justified by its doc phrase) writes no memory reachable from its receiver or arguments — interprocedural effect analysis on SSA; the copy-on-write latch of replace is verified structurally; (2) the command encoding discipline: cmdLen vs the format, payload offsets inside the decoded record, every record built/retagged with the command at both ends; Split hands out capacity-limited sub-slices; (3) no in-place transform accumulates over loop iterations, no loop state variable is stuck at its initial constant. (4) since batch 12: every explicit panic reachable from Settle/And/Or/Xor/Not/DivideBy is a reviewed precondition or data-structure guard, or a known finding with a failing input; the sweep's work-list loop is reported for having no explicit bound (known finding: an operand pair on which Or does not return). NOT decided: 'no zero-length segments', the geometry the builders trace, implicit run-time panics other than those named, termination of anything but that loop.",
 		Assumptions: []string{"standard-library functions not in the mutator table are pure (listed in coverage.external_assumed)", "results of calls through function-typed parameters are fresh objects", "one reviewed call edge: Dash -> Join (reason in the checker's exception table)"},
 		Run: func(c *core.Ctx, r *core.Report) {
+			E11SVGSmooth(c, r)
 			E11ArcSpanMagnitude(c, r)
 			E11ClampAfterSign(c, r)
 			E11ControlPointClausesSymmetric(c, r)
@@ -349,7 +355,7 @@ func init() {
 func init() {
 	register("C04", &Property{
 		Title:       "Stroke and Offset realise exact distance offsets of the path",
-		Explanation: "Decides one clause only, 'closed subpaths are joined, not capped' (and its dual: open sub-paths are capped iff stroking): in (*Path).offset the closed flag is set exactly by a Close command, every Capper call is control-dependent on !closed && strokeOpen and placed at the two ends, the Joiner wraps around from the last to the first segment when closed, the closed branch closes both offset curves, and Stroke/Offset pass strokeOpen true/false; plus the angle-unit consistency of the arc rotation passed to ArcTo (E8, whole package). NOT decided: every distance clause (w/2 neighbourhood, miter limit, inner-bend repair, offset direction).",
+		Explanation: "Decides one clause only, 'closed subpaths are joined, not capped' (and its dual: open sub-paths are capped iff stroking): in (*Path).offset the closed flag is set exactly by a Close command, every Capper call is control-dependent on !closed && strokeOpen and placed at the two ends, the Joiner wraps around from the last to the first segment when closed, the closed branch closes both offset curves, and Stroke/Offset pass strokeOpen true/false; plus the angle-unit consistency of the arc rotation passed to ArcTo (E8, whole package). NOT decided: every distance clause (w/2 neighbourhood, miter limit, inner-bend repair, offset direction). Also runs the structural rules on Settle (registered for C02): closed sub-paths are stroked by settling their offset curves.",
 		Run: func(c *core.Ctx, r *core.Report) {
 			E11SignFlipPerIteration(c, r)
 			E11ArcJoinDirectionFlags(c, r)
@@ -363,11 +369,28 @@ func init() {
 			E11SubpathLoops(c, r)
 			E11CapJoin(c, r)
 			E8Units(c, r)
+			// the outline of a closed sub-path is settled (Settle(Positive/Negative)): the rules on the sweep decide that step
+			E11StickyFlag(c, r)
+			E9CopyDropsStatusNode(c, r)
+			E9EndpointPair(c, r)
+			E9WindingInherited(c, r)
+			E9AdjacentAlwaysTested(c, r)
+			E4InsertAlias(c, r, []string{""})
+			E9AbsorbedLink(c, r)
+			E9AbsorbConserves(c, r)
+			E9DepthFromResultEdge(c, r)
+			E9DepthDerivedAfterRead(c, r)
+			E9SquareRange(c, r)
+			E9HoleParity(c, r)
+			E9WindingsSync(c, r)
+			E9Fills(c, r)
+			E9Wrappers(c, r, map[string]bool{"Settle": true})
+			E9InResult(c, r, []string{"opSettle"})
 		},
 	})
 	register("C05", &Property{
 		Title:       "Dashing cuts the path by arc length according to the pattern",
-		Explanation: "Decides two structural clauses: (1) 'independently for every subpath': in Dash the only variable carried across iterations of the sub-path loop is the output accumulator and every iteration restarts from (i0, pos0); (2) pieces cut by SplitAt are made relative to the previous cut in every curve case (E11.cut-carried), read the sub-path's own data (E2 cursor domain) and keep the arc rotation in consistent units (E8). NOT decided: every arithmetic clause (phase, period, offsets, arc-length inversion, piece order, joining of closed sub-paths, degenerate patterns). Argument mutation by Dash is decided under C10/C15.",
+		Explanation: "Decides two structural clauses: (1) 'independently for every subpath': in Dash the only variable carried across iterations of the sub-path loop is the output accumulator and every iteration restarts from (i0, pos0); (2) pieces cut by SplitAt are made relative to the previous cut in every curve case (E11.cut-carried), read the sub-path's own data (E2 cursor domain) and keep the arc rotation in consistent units (E8). NOT decided: every arithmetic clause (phase, period, offsets, arc-length inversion, piece order, joining of closed sub-paths, degenerate patterns). Argument mutation by Dash is decided under C10/C15. Also runs the structural rules on SplitAt and Length (registered for C09): Dash cuts with SplitAt at positions measured with Length.",
 		Run: func(c *core.Ctx, r *core.Report) {
 			E11CutInterval(c, r)
 			E1DashInputs(c, r)
@@ -382,6 +405,20 @@ func init() {
 			E2AccumulatorAdvance(c, r)
 			E2CursorDomain(c, r, map[string]bool{"Path.SplitAt": true, "Path.Dash": true, "Path.Length": true, "Path.Split": true})
 			E8Units(c, r)
+			// dashes are cut with SplitAt at positions measured with Length: the rules on both decide that step
+			E11CutsSortedBeforeUse(c, r)
+			E11CloseUsesOwnStart(c, r)
+			E9ChordShortcut(c, r)
+			E11QuadratureCoversArc(c, r)
+			E3ArcShortcut(c, r)
+			E2CmdLenTable(c, r)
+			E2RecordLayout(c, r)
+			E2RecordConstruction(c, r)
+			E11SubpathFlag(c, r)
+			E2MoveReplayed(c, r)
+			E2RecordPreserved(c, r)
+			E4LogDomain(c, r)
+			E11NormaliseFirst(c, r)
 		},
 	})
 }
@@ -391,6 +428,9 @@ func init() {
 		Title:       "Embedded fonts and glyph paths reproduce the laid-out text",
 		Explanation: "Decides three structural clauses: (1) 'the glyph subsetter assigns each used glyph one stable code with .notdef at zero' — the constructor and Get/List have exactly the hit/miss/append shape, and the PDF writer creates a font's subsetter only when the font has none (a second writing direction must not reset the codes already written); (2) fonts used for vertical text are kept in their own map and written with the matching vertical flag (Identity-V vs Identity-H), every font map that reserves an object is written in Close, and every Tf operand names a font registered in the page's resources (E5 font-map and resource rules). (3) the ToUnicode grouping loop keeps `start+length` equal to the visited code (E11.run-covers-codes). NOT decided: outlines, advances, the W array contents, the characters the ToUnicode map names, glyph placement in toPath.",
 		Run: func(c *core.Ctx, r *core.Report) {
+			E5SignedRounding(c, r)
+			E5NameMemoScope(c, r)
+			E5PageMemoFresh(c, r)
 			E11PenAdvancesOnly(c, r)
 			E5GlyphStringEscapes(c, r)
 			E6MemoStoresCompared(c, r)
@@ -410,6 +450,7 @@ func init() {
 		Title:       "Imported SVG documents draw the geometry the SVG specifies",
 		Explanation: "Decides the unit and coverage tables of the importer for every document: parseDimension's factors equal the CSS absolute-unit and angle tables (constant folding); the canvas size is in millimetres on every branch (explicit width/height and viewBox fallback use the same px→mm factor) and init uses the inverse factor, the y-down coordinate system and the size/viewBox user-unit scale (px→mm without a viewBox); drawShape has a case for each basic shape; the path data parser's index guards and explicit-panic freedom are decided under C11. NOT decided: styling precedence, CSS selectors, transform order, per-element geometry, the write/read round trip.",
 		Run: func(c *core.Ctx, r *core.Report) {
+			E11ZeroFactor(c, r)
 			E11SVGKeywordInitial(c, r)
 			E11EmptyValueAccepted(c, r)
 			E11ViewBoxSeparators(c, r)
@@ -439,8 +480,9 @@ func init() {
 func init() {
 	register("C16", &Property{
 		Title:       "Text layout places every character once, inside the box, on ordered lines",
-		Explanation: "Decides two structural clauses. (1) the structural part of 'lines are stacked monotonically by their line heights … Text.Bounds/Heights enclose all spans': a line's top/ascent/descent/bottom are pure component-wise math.Max folds over its spans (each accumulator folded with the same-named component of FontFace.heights(), inline objects' ascent/descent feeding the right pair), and Text.Heights combines the first line's ascent with the last line's descent. (2) a necessary condition of 'right-aligned lines end at the width, centred lines are centred, no line extends beyond the box unless Overflows is reported': the width the line breaker records for a feasible break includes the width of the penalty (the hyphen shown at the break), by the same guarded addition the fitting computation uses. NOT decided: everything else — that every character appears exactly once and in order, glyph/byte index bookkeeping, glue stretching, alignment, bidi reordering, Overflows, which are arithmetic over runtime arrays with no structural clause.",
+		Explanation: "Decides two structural clauses. (1) the structural part of 'lines are stacked monotonically by their line heights … Text.Bounds/Heights enclose all spans': a line's top/ascent/descent/bottom are pure component-wise math.Max folds over its spans (each accumulator folded with the same-named component of FontFace.heights(), inline objects' ascent/descent feeding the right pair), and Text.Heights combines the first line's ascent with the last line's descent. (2) a necessary condition of 'right-aligned lines end at the width, centred lines are centred, no line extends beyond the box unless Overflows is reported': the width the line breaker records for a feasible break includes the width of the penalty (the hyphen shown at the break), by the same guarded addition the fitting computation uses. NOT decided: everything else — that every character appears exactly once and in order, glyph/byte index bookkeeping, glue stretching, alignment, bidi reordering, Overflows, which are arithmetic over runtime arrays with no structural clause. Also runs the structural rules on Linebreak (registered for C17): the lines of a text box are those Linebreak chooses.",
 		Run: func(c *core.Ctx, r *core.Report) {
+			E4ListLinks(c, r)
 			E11IndentOnEveryPath(c, r)
 			E11ObjectOwnItem(c, r)
 			E4UnboundedQuotientNotMultiplied(c, r)
@@ -458,6 +500,17 @@ func init() {
 			E11DerivedBeforeUpdate(c, r)
 			E11ResetComplete(c, r)
 			E11StaleAfterBreak(c, r)
+			// lines are chosen by Linebreak: the rules on it decide that step
+			E4RunningTotalsFixed(c, r)
+			E4NextToleranceRecorded(c, r)
+			E4ClassRecordsTogether(c, r)
+			E4ZeroGuardIsDivisor(c, r, "text")
+			E4ForcedBreakForgets(c, r)
+			E11SumNotOverwritten(c, r)
+			E4LinebreakGuards(c, r)
+			E4AllocCoversIndex(c, r)
+			E4ForcedBreakDeactivates(c, r)
+			E11BreakSums(c, r)
 		},
 	})
 }
